@@ -480,3 +480,5 @@ B('C14.rsa-modulus-sign-not-tested', ['C14'], [(P + 'ssh/key.py', "        if pa
 B('C14.dnskey-prime-not-tested', ['C14'], [(P + 'dnsrec/record.py', "        if not key_parser['p']:\n            # the size of a key is the size of its prime, there is none for zero\n            raise InvalidValue(key_parser['p'], cls, 'p')\n", "")],
   mention=['C14.R15'], props=['C14', 'C08'])
 N('benign.rsa-modulus-test-spelled-lt-1', [(P + 'ssh/key.py', "        if parser['n'] <= 0:\n", "        if parser['n'] < 1:\n")])
+# DNSKEY DSA: the width of P, G and Y from the prime itself, not from a key size computed with a floating point logarithm
+B('C08.dsa-width-from-float-key-size', ['C08', 'C05'], [(P + 'dnsrec/record.py', "        key_size = (key_params.prime.bit_length() + 7) // 8\n", "        key_size = key.key_size // 8\n")], mention=['DSA'])
